@@ -90,6 +90,30 @@ def extractSEI (bs : Bytes) : List Msg × Option ExtractErr :=
         else go fuel r acc
   go (bs.length + 1) { rest := bs } []
 
+/-! ## SEI NAL units: `avc.ParseSEINalu` / `hevc.ParseSEINalu` -/
+
+inductive Codec | avc | hevc
+deriving Repr, DecidableEq
+
+/-- bytes of the NAL unit header (AVC 1, HEVC 2) -/
+def Codec.hdrLen : Codec → Nat
+  | .avc => 1
+  | .hevc => 2
+
+/-- the `ErrNotSEINalu` test: AVC `nalu[0] & 0x1f == 6`; HEVC at least two bytes and `(nalu[0] >> 1) & 0x3f` ∈ {39, 40} -/
+def isSEINalu : Codec → Bytes → Bool
+  | .avc, b :: _ => b % 32 == 6
+  | .hevc, b :: _ :: _ => (b / 2) % 64 == 39 || (b / 2) % 64 == 40
+  | _, _ => false
+
+/-- `ParseSEINalu` as a list of (type, payload): header test, `ExtractSEIData` on the bytes after the header; `none` =
+    not an SEI NAL unit. Every message of the list then goes through its decoder (by type and codec) on its own; for a
+    payload its decoder accepts, (Type(), Payload()) of the result is the (type, payload) pair extracted: the general
+    and pass-through messages keep the payload bytes, the typed messages re-serialise to them (`timeCode_roundtrip`,
+    `mdcv_roundtrip`, `cll_roundtrip`, `picTiming_roundtrip`). The list is a value: one entry per message, in order. -/
+def parseSEINalu (c : Codec) (nalu : Bytes) : Option (List Msg × Option ExtractErr) :=
+  if isSEINalu c nalu then some (extractSEI (nalu.drop c.hdrLen)) else none
+
 /-! ## typed messages -/
 
 def flagBit (b : Bool) : Nat := if b then 1 else 0
